@@ -14,6 +14,72 @@ int main(int argc, char **argv)
     {
         ci++;
         const std::string &op = c[0];
+        if (op == "conc")
+        {
+            // conc <nthreads> <seed> : in a FRESH process (forked child whose first library calls these are) n plain threads
+            // invert / divide at the same time; every returned value comes back through a pipe and is logged as an ordinary event
+            int n = atoi(c[1].c_str());
+            uint64_t seed = vh::parse_u64(c[2]);
+            if (n < 1 || n > 32)
+                n = 8;
+            const int per = 6;
+            std::vector<uint64_t> as((size_t)n * per), bs((size_t)n * per), rs((size_t)n * per, 0);
+            {
+                vh::Rng r(seed);
+                for (size_t i = 0; i < as.size(); i++)
+                {
+                    uint64_t w = r.word();
+                    as[i] = (i % 3 == 0) ? 1 + (w % 0xFFFF) : ((i % 3 == 1) ? 1 + (w % 0xFFFFFFFFULL) : w); // small, medium, any
+                    if (as[i] == 0 || as[i] == vh::PRIME)
+                        as[i] = 7;
+                    bs[i] = r.word();
+                }
+            }
+            int fd[2];
+            if (pipe(fd) != 0)
+                return 3;
+            auto end = vh::in_child([&]() {
+                vh::concurrently(n, [&](int tid) {
+                    for (int k = 0; k < per; k++)
+                    {
+                        size_t i = (size_t)tid * per + k;
+                        E r = (k % 2) ? Goldilocks::div(E{bs[i]}, E{as[i]}) : Goldilocks::inv(E{as[i]});
+                        rs[i] = r.fe;
+                    }
+                });
+                if (write(fd[1], rs.data(), rs.size() * 8) != (ssize_t)(rs.size() * 8))
+                    _exit(9);
+            });
+            close(fd[1]);
+            bool returned = read(fd[0], rs.data(), rs.size() * 8) == (ssize_t)(rs.size() * 8);
+            close(fd[0]);
+            if (!returned)
+            {
+                o.begin("ended");
+                o.num("ci", ci);
+                o.str("op", "conc");
+                o.str("form", "child");
+                o.w64("a", as[0]);
+                o.w64("b", 0);
+                o.str("kind", end.kind);
+                o.num("code", end.code);
+                o.end();
+                continue;
+            }
+            for (size_t i = 0; i < as.size(); i++)
+            {
+                bool isdiv = (i % per) % 2;
+                o.begin(isdiv ? "div" : "inv");
+                o.num("ci", ci);
+                o.str("op", isdiv ? "div" : "inv");
+                o.str("form", "concurrent");
+                o.w64("a", isdiv ? bs[i] : as[i]);
+                o.w64("b", isdiv ? as[i] : 0);
+                o.w64("r", rs[i]);
+                o.end();
+            }
+            continue;
+        }
         if (op == "chain")
         {
             // chain <inv|div|rdiv|exp> <k> <a> <b> : x = a; k times x = inv(x) / x / b / b / x / x^b, the result object being the
